@@ -1874,3 +1874,146 @@ func c06r15(p *Program, r *Report) {
 		r.Unresolved("no blocking send on controlConn.quit found")
 	}
 }
+
+// c11r12: (*tokenAwareHostPolicy).updateReplicas builds the new keyspace -> replicas map from the freshly computed
+// entry of the updated keyspace and the old entries of all the others. A copy loop that also carries over the old
+// entry of the updated keyspace leaves stale replicas in place whenever the new entry cannot be computed (keyspace
+// dropped, strategy unknown, no ring): the copy is made under key != keyspace, or the entry is overwritten / deleted
+// on every path afterwards.
+func c11r12(p *Program, r *Report) {
+	fi := r.NeedFunc("(*tokenAwareHostPolicy).updateReplicas")
+	if fi == nil {
+		return
+	}
+	replF := p.Field("clusterMeta", "replicas")
+	if replF == nil {
+		r.Unresolved("clusterMeta.replicas not found")
+		return
+	}
+	n := 0
+	for _, u := range p.unitsOf(fi) {
+		info := u.Pkg.TypesInfo
+		// the keyspace being updated: the string parameter
+		var kp types.Object
+		if u.Decl.Type.Params != nil {
+			for _, f := range u.Decl.Type.Params.List {
+				for _, nm := range f.Names {
+					if obj := info.Defs[nm]; obj != nil {
+						if b, isB := obj.Type().Underlying().(*types.Basic); isB && b.Kind() == types.String {
+							kp = obj
+						}
+					}
+				}
+			}
+		}
+		if kp == nil {
+			continue
+		}
+		g := p.GraphOf(u)
+		facts := g.GuardFacts()
+		type copySite struct {
+			store *ast.AssignStmt
+			m     string
+		}
+		carried := map[ast.Node]string{}
+		var sites []copySite
+		inspectNoLit(u.Decl.Body, func(x ast.Node) bool {
+			rg, ok := x.(*ast.RangeStmt)
+			if !ok || fieldOf(info, rg.X) != replF || rg.Key == nil {
+				return true
+			}
+			kid, isId := rg.Key.(*ast.Ident)
+			if !isId || info.Defs[kid] == nil {
+				return true
+			}
+			kobj := info.Defs[kid]
+			ast.Inspect(rg.Body, func(y ast.Node) bool {
+				as, isA := y.(*ast.AssignStmt)
+				if !isA {
+					return true
+				}
+				for _, l := range as.Lhs {
+					if ix, isIx := ast.Unparen(l).(*ast.IndexExpr); isIx && isIdentOf(info, ix.Index, kobj) {
+						if _, isMap := info.TypeOf(ix.X).Underlying().(*types.Map); isMap {
+							f, _ := facts.Before(as)
+							ne := &ast.BinaryExpr{X: ast.NewIdent(kid.Name), Op: token.NEQ, Y: ast.NewIdent(kp.Name())}
+							ne2 := &ast.BinaryExpr{X: ast.NewIdent(kp.Name()), Op: token.NEQ, Y: ast.NewIdent(kid.Name)}
+							v1, k1 := f.Known(ne)
+							v2, k2 := f.Known(ne2)
+							if (k1 && v1) || (k2 && v2) {
+								n++
+								r.OK(as, u.Name+" copies the entries of the other keyspaces only", "store under "+kid.Name+" != "+kp.Name())
+								continue
+							}
+							carried[as] = exprStr(ix.X)
+							sites = append(sites, copySite{as, exprStr(ix.X)})
+						}
+					}
+				}
+				return true
+			})
+			return true
+		})
+		for _, cs := range sites {
+			n++
+			cs := cs
+			resets := func(nd ast.Node) bool {
+				switch s := nd.(type) {
+				case *ast.AssignStmt:
+					for _, l := range s.Lhs {
+						if ix, isIx := ast.Unparen(l).(*ast.IndexExpr); isIx && exprStr(ix.X) == cs.m && isIdentOf(info, ix.Index, kp) {
+							return true
+						}
+					}
+				case *ast.ExprStmt:
+					if c, isC := s.X.(*ast.CallExpr); isC && calleeName(info, c) == "builtin.delete" && len(c.Args) == 2 && exprStr(c.Args[0]) == cs.m && isIdentOf(info, c.Args[1], kp) {
+						return true
+					}
+				}
+				return false
+			}
+			sol := Solve(g, Lattice[int]{
+				Join: func(a, b int) int {
+					if a > b {
+						return a
+					}
+					return b
+				},
+				Eq: func(a, b int) bool { return a == b },
+				Step: func(st int, step Step) int {
+					if step.Kind != StNode {
+						return st
+					}
+					if step.Node == ast.Node(cs.store) {
+						return 1
+					}
+					if resets(step.Node) {
+						return 0
+					}
+					return st
+				},
+			})
+			stale := false
+			for _, e := range g.Exits() {
+				if e.Kind == ExitPanic {
+					continue
+				}
+				var st int
+				var ok bool
+				if e.Node != nil {
+					st, ok = sol.After(e.Node)
+				} else {
+					st, ok = sol.AtExit(e)
+				}
+				if ok && st == 1 {
+					stale = true
+				}
+			}
+			r.Check(!stale, cs.store, u.Name+" does not carry over the old replicas of the keyspace it updates", "copy under key != keyspace, or the entry is overwritten / deleted on every path afterwards",
+				"the old replica map of the updated keyspace is copied into the new map and survives on the paths where no new entry is computed (keyspace dropped, unknown strategy, no ring): token-aware routing keeps sending queries to hosts that are no longer replicas")
+		}
+	}
+	if n == 0 {
+		r.Unresolved("updateReplicas: no copy of the old replica maps found")
+	}
+}
